@@ -165,7 +165,7 @@ jrel_op(loc,    "JUMP_IF_FALSE", 111, 1, 1, True)  # ""
 jrel_op(loc,    "JUMP_IF_TRUE",  112, 1, 1, True)  # ""
 jabs_op(loc,    "JUMP_ABSOLUTE", 113, 0, 0, fallthrough=False)
                                              # Target byte offset from beginning of code
-def_op(loc,     "FOR_LOOP",      114)  # Number of bytes to skip
+jrel_op(loc,    "FOR_LOOP",      114, 0, 0, conditional=True)  # Number of bytes to skip
 
 name_op(loc,    "LOAD_GLOBAL",   116, 0, 1)  # Operand is in name list
 loc["nullaryloadop"].add(116)
